@@ -12,7 +12,7 @@ import (
 func init() { props["C12"] = runC12 }
 
 func runC12(r *Run, rng *rand.Rand, thorough bool) {
-	r.Rule = "cross-verification with substitutions: every accepted proof (Go- and model-made) is re-judged by both verifiers under another session, another statement component and every single-component perturbation (+1, -1, random, zero, neighbour swap; all indices of the repeated parts in the thorough tier) and commitment/response shift attacks; non-trivial = distinct verify op; direct assertion: the Go verifier accepts none of them"
+	r.Rule = "cross-verification with substitutions: every accepted proof (Go- and model-made) is re-judged by both verifiers under another session, another statement component and every single-component perturbation (+1, -1, random, zero, neighbour swap; all indices of the repeated parts in the thorough tier) and commitment/response shift attacks along every checked relation (each commitment moved along each of its bases with the matching responses), additive inverses modulo every modulus of the statement; non-trivial = distinct verify op; direct assertion: the Go verifier accepts none of them"
 	cases := honestCases(r, rng, thorough)
 	perSys := map[string]int{}
 	for _, c := range cases {
@@ -63,61 +63,142 @@ func runC12(r *Run, rng *rand.Rand, thorough bool) {
 				judge("proof:"+m.name, c.with(m), fmt.Sprintf("arg %d idx %d %s", ai, m.idx, m.name))
 			}
 		}
-		// shift attacks along the verified relation
+		// shift attacks along every relation the verifier checks: a commitment is moved along one base and the
+		// response(s) that multiply that base are moved with it, so the checked equation still holds and only the
+		// challenge (which must cover the commitment) makes the verifier reject
+		d := bi(int64(1 + rng.Intn(1000)))
+		mulExp := func(v, base, e, m *big.Int) *big.Int { // v·base^e mod m
+			return new(big.Int).Mod(new(big.Int).Mul(v, new(big.Int).Exp(base, e, m)), m)
+		}
+		plus := func(v, e *big.Int) *big.Int { return new(big.Int).Add(v, e) }
+		shiftList := func(ai int, detail string, f func(pf []*big.Int) []*big.Int) {
+			pf2 := f(append([]*big.Int{}, dInts(c.args[ai])...))
+			if pf2 == nil {
+				return
+			}
+			args := append([]string{}, c.args...)
+			args[ai] = eInts(pf2)
+			judge("shift", args, detail)
+		}
 		switch {
 		case strings.HasPrefix(c.sys, "schnorr/"):
 			cv := curveByTag(c.args[0])
-			d := bi(int64(1 + rng.Intn(1000)))
 			al := dPoint(cv, c.args[3])
 			if sh, err := al.Add(crypto.ScalarBaseMult(cv, d)); err == nil {
 				args := append([]string{}, c.args...)
 				args[3] = ePoint(sh)
-				args[4] = eInt(new(big.Int).Add(dInt(c.args[4]), d))
+				args[4] = eInt(plus(dInt(c.args[4]), d))
 				judge("shift", args, "alpha+dG, t+d")
+			}
+		case strings.HasPrefix(c.sys, "schnorrv/"):
+			// t·R + u·G = alpha + c·V
+			cv := curveByTag(c.args[0])
+			R, al := dPoint(cv, c.args[3]), dPoint(cv, c.args[4])
+			if sh, err := al.Add(crypto.ScalarBaseMult(cv, d)); err == nil {
+				args := append([]string{}, c.args...)
+				args[4], args[6] = ePoint(sh), eInt(plus(dInt(c.args[6]), d))
+				judge("shift", args, "alpha+dG, u+d")
+			}
+			if sh, err := al.Add(R.ScalarMult(d)); err == nil {
+				args := append([]string{}, c.args...)
+				args[4], args[5] = ePoint(sh), eInt(plus(dInt(c.args[5]), d))
+				judge("shift", args, "alpha+dR, t+d")
 			}
 		case c.sys == "dln":
 			al, t := dInts(c.args[0]), dInts(c.args[1])
 			h1, n := dInt(c.args[2]), dInt(c.args[4])
-			i := rng.Intn(len(al))
-			d := bi(int64(1 + rng.Intn(1000)))
-			al2 := append([]*big.Int{}, al...)
-			t2 := append([]*big.Int{}, t...)
-			al2[i] = new(big.Int).Mod(new(big.Int).Mul(al[i], new(big.Int).Exp(h1, d, n)), n)
-			t2[i] = new(big.Int).Add(t[i], d)
-			args := append([]string{}, c.args...)
-			args[0], args[1] = eInts(al2), eInts(t2)
-			judge("shift", args, "alpha_i*h1^d, t_i+d")
+			for _, i := range []int{0, rng.Intn(len(al)), len(al) - 1} {
+				al2 := append([]*big.Int{}, al...)
+				t2 := append([]*big.Int{}, t...)
+				al2[i] = mulExp(al[i], h1, d, n)
+				t2[i] = plus(t[i], d)
+				args := append([]string{}, c.args...)
+				args[0], args[1] = eInts(al2), eInts(t2)
+				judge("shift", args, fmt.Sprintf("alpha_%d*h1^d, t_%d+d", i, i))
+			}
 		case c.sys == "range":
-			// w·h2^d with s2+d keeps equation 5 but changes the challenge pre-image
-			pf := dInts(c.args[6])
-			nt, h2 := dInt(c.args[2]), dInt(c.args[4])
-			d := bi(int64(1 + rng.Intn(1000)))
-			pf2 := append([]*big.Int{}, pf...)
-			pf2[2] = new(big.Int).Mod(new(big.Int).Mul(pf[2], new(big.Int).Exp(h2, d, nt)), nt)
-			pf2[5] = new(big.Int).Add(pf[5], d)
-			args := append([]string{}, c.args...)
-			args[6] = eInts(pf2)
-			judge("shift", args, "w*h2^d, s2+d")
+			// u = Γ^s1·s^N·c^-e (mod N²), w = h1^s1·h2^s2·z^-e (mod Ñ); proof = (z, u, w, s, s1, s2)
+			n, nt, h1, h2 := dInt(c.args[1]), dInt(c.args[2]), dInt(c.args[3]), dInt(c.args[4])
+			n2 := new(big.Int).Mul(n, n)
+			gamma := plus(n, bi(1))
+			shiftList(6, "w*h2^d, s2+d", func(pf []*big.Int) []*big.Int {
+				pf[2], pf[5] = mulExp(pf[2], h2, d, nt), plus(pf[5], d)
+				return pf
+			})
+			shiftList(6, "u*Gamma^d, w*h1^d, s1+d", func(pf []*big.Int) []*big.Int {
+				pf[1], pf[2], pf[4] = mulExp(pf[1], gamma, d, n2), mulExp(pf[2], h1, d, nt), plus(pf[4], d)
+				return pf
+			})
+			shiftList(6, "u*k^N, s*k", func(pf []*big.Int) []*big.Int {
+				k := plus(d, bi(1))
+				pf[1], pf[3] = mulExp(pf[1], k, n, n2), new(big.Int).Mod(new(big.Int).Mul(pf[3], k), n)
+				return pf
+			})
 		case c.sys == "fac":
-			pf := dInts(c.args[6])
-			ncap, tt := dInt(c.args[3]), dInt(c.args[5])
-			d := bi(int64(1 + rng.Intn(1000)))
-			pf2 := append([]*big.Int{}, pf...)
-			pf2[2] = new(big.Int).Mod(new(big.Int).Mul(pf[2], new(big.Int).Exp(tt, d, ncap)), ncap) // A·t^d
-			pf2[8] = new(big.Int).Add(pf[8], d)                                                     // w1 + d
-			args := append([]string{}, c.args...)
-			args[6] = eInts(pf2)
-			judge("shift", args, "A*t^d, w1+d")
+			// s^z1·t^w1 = A·P^e, s^z2·t^w2 = B·Q^e, Q^z1·t^v = T·(s^N0·t^sigma)^e (mod N̂)
+			// proof = (P, Q, A, B, T, sigma, z1, z2, w1, w2, v)
+			ncap, ss, tt := dInt(c.args[3]), dInt(c.args[4]), dInt(c.args[5])
+			shiftList(6, "A*t^d, w1+d", func(pf []*big.Int) []*big.Int {
+				pf[2], pf[8] = mulExp(pf[2], tt, d, ncap), plus(pf[8], d)
+				return pf
+			})
+			shiftList(6, "B*t^d, w2+d", func(pf []*big.Int) []*big.Int {
+				pf[3], pf[9] = mulExp(pf[3], tt, d, ncap), plus(pf[9], d)
+				return pf
+			})
+			shiftList(6, "T*t^d, v+d", func(pf []*big.Int) []*big.Int {
+				pf[4], pf[10] = mulExp(pf[4], tt, d, ncap), plus(pf[10], d)
+				return pf
+			})
+			shiftList(6, "A*s^d, T*Q^d, z1+d", func(pf []*big.Int) []*big.Int {
+				pf[2], pf[4], pf[6] = mulExp(pf[2], ss, d, ncap), mulExp(pf[4], pf[1], d, ncap), plus(pf[6], d)
+				return pf
+			})
+			shiftList(6, "B*s^d, z2+d", func(pf []*big.Int) []*big.Int {
+				pf[3], pf[7] = mulExp(pf[3], ss, d, ncap), plus(pf[7], d)
+				return pf
+			})
 		case c.sys == "bob" || c.sys == "bobwc":
-			pf := dInts(c.args[8])
-			nt, h2 := dInt(c.args[3]), dInt(c.args[5])
-			d := bi(int64(1 + rng.Intn(1000)))
-			pf2 := append([]*big.Int{}, pf...)
-			pf2[4] = new(big.Int).Mod(new(big.Int).Mul(pf[4], new(big.Int).Exp(h2, d, nt)), nt) // w·h2^d
-			pf2[9] = new(big.Int).Add(pf[9], d)                                                 // t2 + d
-			args := append([]string{}, c.args...)
-			args[8] = eInts(pf2)
-			judge("shift", args, "w*h2^d, t2+d")
+			// h1^s1·h2^s2 = z^e·z', h1^t1·h2^t2 = t^e·w (mod Ñ), c1^s1·s^N·Γ^t1 = c2^e·v (mod N²), [s1·G = U + e·X]
+			// proof = (z, z', t, v, w, s, s1, s2, t1, t2)
+			n, nt, h1, h2, c1 := dInt(c.args[2]), dInt(c.args[3]), dInt(c.args[4]), dInt(c.args[5]), dInt(c.args[6])
+			n2 := new(big.Int).Mul(n, n)
+			gamma := plus(n, bi(1))
+			shiftList(8, "w*h2^d, t2+d", func(pf []*big.Int) []*big.Int {
+				pf[4], pf[9] = mulExp(pf[4], h2, d, nt), plus(pf[9], d)
+				return pf
+			})
+			shiftList(8, "z'*h2^d, s2+d", func(pf []*big.Int) []*big.Int {
+				pf[1], pf[7] = mulExp(pf[1], h2, d, nt), plus(pf[7], d)
+				return pf
+			})
+			shiftList(8, "v*k^N, s*k", func(pf []*big.Int) []*big.Int {
+				k := plus(d, bi(1))
+				pf[3], pf[5] = mulExp(pf[3], k, n, n2), new(big.Int).Mod(new(big.Int).Mul(pf[5], k), n)
+				return pf
+			})
+			shiftList(8, "w*h1^d, v*Gamma^d, t1+d", func(pf []*big.Int) []*big.Int {
+				pf[4], pf[3], pf[8] = mulExp(pf[4], h1, d, nt), mulExp(pf[3], gamma, d, n2), plus(pf[8], d)
+				return pf
+			})
+			{
+				pf := append([]*big.Int{}, dInts(c.args[8])...)
+				pf[1], pf[3], pf[6] = mulExp(pf[1], h1, d, nt), mulExp(pf[3], c1, d, n2), plus(pf[6], d)
+				args := append([]string{}, c.args...)
+				args[8] = eInts(pf)
+				okU := true
+				if c.sys == "bobwc" {
+					cv := curveByTag(c.args[0])
+					sh, err := dPoint(cv, c.args[10]).Add(crypto.ScalarBaseMult(cv, d))
+					okU = err == nil
+					if okU {
+						args[10] = ePoint(sh)
+					}
+				}
+				if okU {
+					judge("shift", args, "z'*h1^d, v*c1^d, s1+d[, U+dG]")
+				}
+			}
 		}
 	}
 }
